@@ -208,6 +208,36 @@ func (d *deepFn) localPaths(n *dnode, in ssa.Instruction, ab func(string) string
 					}
 				}
 			}
+			// expansion of "boolHelper(...)" / "!boolHelper(...)": a small predicate extracted from a condition
+			if l.Kind == "call" && len(alts) == 0 {
+				if callee := staticCallee(l.Call); inlinable(callee) {
+					var child *dnode
+					for _, c := range d.nodes {
+						if c.parent == n && c.site == ssa.CallInstruction(l.Call) {
+							child = c
+						}
+					}
+					if child != nil {
+						if hl, okh := boolReturnLits(callee, l.Pol); okh && len(hl) > 0 && len(hl) <= 16 {
+							for _, hp := range hl {
+								var lp litPath
+								withEnv(child, func() {
+									for _, x := range hp {
+										lp.strs = append(lp.strs, renderLit(x))
+										if lc, ok := canonLinCmp(x); ok {
+											if ab != nil {
+												lc.L = abstractLin(lc.L, ab)
+											}
+											lp.lins = append(lp.lins, lc.String())
+										}
+									}
+								})
+								alts = append(alts, lp)
+							}
+						}
+					}
+				}
+			}
 			var own litPath
 			withEnv(n, func() {
 				own.strs = []string{renderLit(l)}
@@ -273,9 +303,28 @@ func (d *deepFn) returnPaths(n *dnode, call *ssa.Call, wantNil bool, ab func(str
 
 // paths: the literal paths from the entry of the root function to the deep instruction.
 func (d *deepFn) paths(x dins, ab func(string) string) ([]litPath, bool) {
+	return d.pathsFrom(nil, x, ab)
+}
+
+// lca: the deepest node of the view that is an ancestor (or self) of both a and b.
+func (d *deepFn) lca(a, b *dnode) *dnode {
+	anc := map[*dnode]bool{}
+	for x := a; x != nil; x = x.parent {
+		anc[x] = true
+	}
+	for x := b; x != nil; x = x.parent {
+		if anc[x] {
+			return x
+		}
+	}
+	return d.root
+}
+
+// pathsFrom: the literal paths from the entry of the function of node `from` (nil: the root) to x.
+func (d *deepFn) pathsFrom(from *dnode, x dins, ab func(string) string) ([]litPath, bool) {
 	var chain []dins
 	chain = append(chain, x)
-	for a := x.n; a != nil && a.parent != nil; a = a.parent {
+	for a := x.n; a != nil && a.parent != nil && a != from; a = a.parent {
 		chain = append([]dins{{a.parent, a.site.(ssa.Instruction)}}, chain...)
 	}
 	cur := []litPath{{}}
